@@ -453,4 +453,79 @@ example : tripCount .lt 0 2 2147483646 = .count 1073741823 := by decide
 example : BreaksAt .lt 0 3 10 4 := tripcount_exact .lt 0 3 10 4 (by decide) (by decide) (by decide)
 example : iterW 0 3 4 = 12 := by decide
 
+/-! ## 7. Dead-code elimination keeps every possibly-trapping statement and every effect -/
+
+/-- FULL STRENGTH: for every straight-line block, every set of names used afterwards and every two
+environments that agree on the names DCE considers used at entry: the optimised block prints the
+same values, traps iff the original traps, and ends in an environment that agrees on the names
+used afterwards. -/
+theorem dce_preserves (p : List SStmt) (live : List Nat) (ρ1 ρ2 : Nat → Int)
+    (h : ∀ x, x ∈ (dce p live).2 → ρ1 x = ρ2 x) :
+    (execS p ρ1).1 = (execS (dce p live).1 ρ2).1 ∧
+    (match (execS p ρ1).2, (execS (dce p live).1 ρ2).2 with
+     | none, none => True
+     | some σ1, some σ2 => ∀ x, x ∈ live → σ1 x = σ2 x
+     | _, _ => False) := by
+  induction p generalizing ρ1 ρ2 with
+  | nil => exact ⟨rfl, h⟩
+  | cons s r ih =>
+    cases s with
+    | print a =>
+      rw [dce_print] at h ⊢
+      simp only [execS]
+      have ha : a.eval ρ1 = a.eval ρ2 := eval_agree a ρ1 ρ2 (fun x hx => h x (by simp [hx]))
+      have := ih ρ1 ρ2 (fun x hx => h x (by simp [hx]))
+      refine ⟨by rw [ha, this.1], this.2⟩
+    | bin y op a b =>
+      by_cases hc : y ∉ (dce r live).2 ∧ op ≠ .div ∧ op ≠ .mod
+      · -- dropped: y unused afterwards and op cannot trap
+        rw [dce_bin, if_pos hc] at h ⊢
+        obtain ⟨v, hv⟩ := evalTarget_total_of_not_div op (a.eval ρ1) (b.eval ρ1) hc.2.1 hc.2.2
+        simp only [execS, hv]
+        apply ih (update ρ1 y v) ρ2
+        intro x hx
+        have hxy : x ≠ y := fun e => hc.1 (e ▸ hx)
+        simp only [update, hxy, if_false]
+        exact h x hx
+      · rw [dce_bin, if_neg hc] at h ⊢
+        have ha : a.eval ρ1 = a.eval ρ2 := eval_agree a ρ1 ρ2 (fun x hx => h x (by simp [hx]))
+        have hb : b.eval ρ1 = b.eval ρ2 := eval_agree b ρ1 ρ2 (fun x hx => h x (by simp [hx]))
+        simp only [execS, ha, hb]
+        cases hv : evalTarget op (a.eval ρ2) (b.eval ρ2) with
+        | none => simp
+        | some v =>
+          simp only
+          apply ih (update ρ1 y v) (update ρ2 y v)
+          intro x hx
+          simp only [update]
+          split
+          · rfl
+          · exact h x (by simp [hx])
+
+/-- The keep rule is necessary: dropping an unused division changes the outcome. -/
+theorem dce_div_must_stay :
+    (execS [.bin 0 .div (.lit 1) (.var 1)] (fun _ => 0)).2.isNone = true ∧
+    (execS [] (fun _ => 0)).2.isSome = true ∧
+    (dce [.bin 0 .div (.lit 1) (.var 1)] []).1 = [.bin 0 .div (.lit 1) (.var 1)] := by
+  decide
+example : (dce [.bin 2 .add (.var 0) (.lit 1), .bin 3 .mul (.var 0) (.var 1), .print (.var 3)] [3]).1
+    = [.bin 3 .mul (.var 0) (.var 1), .print (.var 3)] := by decide
+
+/-! ## 8. Loop-invariant code motion never introduces a trap -/
+
+/-- FULL STRENGTH (`licm_no_new_trap`): whatever the loop body and whatever the environment, the
+statements LICM places in front of the loop print nothing and cannot trap — so a loop that runs zero
+iterations behaves as before. -/
+theorem licm_no_new_trap (body : List SStmt) (variant : List Nat) (ρ : Nat → Int) :
+    (execS (licm body variant).1 ρ).1 = [] ∧ (execS (licm body variant).1 ρ).2.isSome = true :=
+  execS_noTrap _ (licm_hoisted_noTrap body variant) ρ
+
+/-- Historical witness (before `fix:` 5a00c22 the rule had no operator test): hoisting an
+invariant division introduces a trap into a zero-iteration loop. -/
+theorem licm_div_hoist_counterexample :
+    (execS [.bin 2 .div (.var 0) (.var 1)] (fun _ => 0)).2.isNone = true ∧
+    (licm [.bin 2 .div (.var 0) (.var 1)] [5]).1 = [] := by decide
+example : (licm [.bin 2 .mul (.var 1) (.lit 3), .bin 3 .add (.var 0) (.var 2), .bin 4 .div (.var 1) (.var 1)] [0]).1
+    = [.bin 2 .mul (.var 1) (.lit 3)] := by decide
+
 end SamVerif.Opt
